@@ -52,6 +52,7 @@ PROPS = {
                         "values behind pointers/maps/interfaces are opaque payloads; only nil-ness and identity matter to the accessors"],
     },
     "C11": {
+        "extra_oracles": ["C11e2e"],
         "props": "theories/Props/C11.v", "cluster": "url", "gen": "url",
         "n": {"quick": 1500, "thorough": 20000}, "oracle_n": {"quick": 900, "thorough": 20000},
         "rule": "correspondence: the url cluster (normalizeBase on ~40 random compositions of the spelling rewrites per location x 9 "
@@ -238,5 +239,102 @@ PROPS = {
         "level_note": "Partial: encoding/gob is modelled, not verified; the per-document theorem is future work.",
         "technique": "Coq lemmas about a hand model of the gob transport + differential run against real gob round trips + oracle",
         "assumptions": ["gob.Register state of the package as at init"],
+    },
+    "C03": {
+        "props": "theories/Props/C03.v", "gens": [("tables", "Codec/Gen_Tables.v")], "cluster": "expand", "gen": "expand", "ops": ["expand_spec"],
+        "n": {"quick": 120, "thorough": 1500}, "oracle_n": {"quick": 150, "thorough": 3000},
+        "rule": 'correspondence: ExpandSpec on generated multi-document reference graphs (1-5 documents in the same/sub/parent directories and an http host; local, sibling, ./ ../, root-relative and absolute refs; nested-pointer and whole-document targets; escaped names; refs at every sub-schema keyword; parameters/responses/path items by $ref; cycles of every small topology; fault injection; all option combinations) + a bounded-exhaustive sample of graphs over <=3 definitions x <=2 documents; oracle: every remaining $ref resolves from the root location to a node on a cycle of the input graph (SCCs of canonical refs); acyclic => no $ref and byte-identical reruns; rendering of kept refs; non-trivial = graph with at least one $ref',
+        "trusted_base": COMMON_TB + ["Expand/Expand.v: hand model of expander.go / schema_loader.go / resolver.go on JSON trees (base-path threading, parent stack, memo of circular refs, resolver roots, deref chains, rebasing, SkipSchemas/ContinueOnError/AbsoluteCircularRef, cache and loader log); abstractions: sub-schemas visited in JSON member order, `#/` refs into the live root read the original root (outputs on cyclic graphs compared through unfoldings)",
+                                     "correspondence scope: graphs without multi-hop parameter/response/path-item chains, imported-circular schemas, schema ids and prefix-sibling documents (the areas of the open findings F7-F10) are compared; the others are judged by the oracle only",
+                                     "Codec/Codec.v (typed decoding of every resolved target) and Base/Url.v (normalizeURI, rebase)"],
+        "level_text": 'Coq theorems (Props/C03.v): a schema reference is kept exactly when its canonical form is on the parent stack or in the memo; the memo only receives references that were on the stack (nodes of cycles); how a kept reference is written (only $ref changes; absolute URL with the option); a non-circular reference is always replaced by the expansion of its target. The graph-level statements (kept refs lie on cycles of the INPUT graph; acyclic => ref-free and deterministic) are checked by the oracle on the implementation.',
+        "level_note": 'Partial: the per-reference theorems are proved of the model; the global cut-point/acyclic statements need the reachability semantics (future work) and rest on the oracle (exhaustive over small graphs in the thorough tier).',
+        "technique": "Coq proof about a hand-written executable model of the expander + differential run (exact on acyclic graphs, unfoldings on cyclic ones) + property oracle on the implementation",
+        "assumptions": ["loader is a function of the URL during one call", "documents are in normal form (reference objects carry only $ref)"],
+    },
+    "C04": {
+        "props": "theories/Props/C04.v", "gens": [("tables", "Codec/Gen_Tables.v")], "cluster": "expand", "gen": "expand", "ops": ["expand_spec"],
+        "n": {"quick": 120, "thorough": 1500}, "oracle_n": {"quick": 150, "thorough": 3000},
+        "rule": 'correspondence: ExpandSpec on generated multi-document reference graphs (1-5 documents in the same/sub/parent directories and an http host; local, sibling, ./ ../, root-relative and absolute refs; nested-pointer and whole-document targets; escaped names; refs at every sub-schema keyword; parameters/responses/path items by $ref; cycles of every small topology; fault injection; all option combinations) + a bounded-exhaustive sample of graphs over <=3 definitions x <=2 documents; oracle: every entry point x the four SkipSchemas/ContinueOnError combinations returns within a time limit without panic, in a killable worker for graphs with ids; non-trivial: all',
+        "trusted_base": COMMON_TB + ["Expand/Expand.v: hand model of expander.go / schema_loader.go / resolver.go on JSON trees (base-path threading, parent stack, memo of circular refs, resolver roots, deref chains, rebasing, SkipSchemas/ContinueOnError/AbsoluteCircularRef, cache and loader log); abstractions: sub-schemas visited in JSON member order, `#/` refs into the live root read the original root (outputs on cyclic graphs compared through unfoldings)",
+                                     "correspondence scope: graphs without multi-hop parameter/response/path-item chains, imported-circular schemas, schema ids and prefix-sibling documents (the areas of the open findings F7-F10) are compared; the others are judged by the oracle only",
+                                     "Codec/Codec.v (typed decoding of every resolved target) and Base/Url.v (normalizeURI, rebase)"],
+        "level_text": 'Coq theorems (Props/C04.v), unbounded: the tree walk is a structural recursion (guard-checked: it cannot diverge or get stuck); running out of fuel d requires d pairwise distinct canonical references nested in one another, all distinct from those on the stack (pigeonhole on the parent stack); hence fuel |U|+1 is never exhausted when the canonical references lie in a finite set U. For every store, loader, option setting, schema and state.',
+        "level_note": 'Partial for the runtime half: stack exhaustion and panics are behaviour of the Go runtime that a functional model cannot exhibit; they are covered by the oracle (watchdog worker). F10 (relative-directory id on a cycle: U is infinite) is an open finding.',
+        "technique": "Coq proof about a hand-written executable model of the expander + differential run (exact on acyclic graphs, unfoldings on cyclic ones) + property oracle on the implementation",
+        "assumptions": ["loader is a function of the URL during one call", "documents are in normal form (reference objects carry only $ref)"],
+    },
+    "C08": {
+        "props": "theories/Props/C08.v", "gens": [("tables", "Codec/Gen_Tables.v")], "cluster": "expand", "gen": "expand", "ops": ["expand_spec"],
+        "n": {"quick": 120, "thorough": 1500}, "oracle_n": {"quick": 150, "thorough": 3000},
+        "rule": 'correspondence: ExpandSpec on generated multi-document reference graphs (1-5 documents in the same/sub/parent directories and an http host; local, sibling, ./ ../, root-relative and absolute refs; nested-pointer and whole-document targets; escaped names; refs at every sub-schema keyword; parameters/responses/path items by $ref; cycles of every small topology; fault injection; all option combinations) + a bounded-exhaustive sample of graphs over <=3 definitions x <=2 documents; oracle: for every graph with injected faults (missing documents, dangling pointers, ill-typed targets) strict mode errs iff a reference that has to be followed is unresolvable; continue mode: no error, unresolvable schema refs verbatim, the rest equal to the strict expansion of the repaired graph',
+        "trusted_base": COMMON_TB + ["Expand/Expand.v: hand model of expander.go / schema_loader.go / resolver.go on JSON trees (base-path threading, parent stack, memo of circular refs, resolver roots, deref chains, rebasing, SkipSchemas/ContinueOnError/AbsoluteCircularRef, cache and loader log); abstractions: sub-schemas visited in JSON member order, `#/` refs into the live root read the original root (outputs on cyclic graphs compared through unfoldings)",
+                                     "correspondence scope: graphs without multi-hop parameter/response/path-item chains, imported-circular schemas, schema ids and prefix-sibling documents (the areas of the open findings F7-F10) are compared; the others are judged by the oracle only",
+                                     "Codec/Codec.v (typed decoding of every resolved target) and Base/Url.v (normalizeURI, rebase)"],
+        "level_text": 'Coq theorems (Props/C08.v): strict mode turns an unresolvable schema reference into an error; continue mode leaves it verbatim (missing document/pointer) and returns no error; errors of the traversal always come from a child / a failed follow / a failed resolution / an unnormalisable URL (never invented), and a failing child stops the fold (never swallowed); F22 (ill-typed target emptied in continue mode) as a theorem about the transcribed behaviour.',
+        "level_note": 'Partial: the iff over whole documents (must_follow set) is checked by the oracle; the theorems are per reference and per fold.',
+        "technique": "Coq proof about a hand-written executable model of the expander + differential run (exact on acyclic graphs, unfoldings on cyclic ones) + property oracle on the implementation",
+        "assumptions": ["loader is a function of the URL during one call", "documents are in normal form (reference objects carry only $ref)"],
+    },
+    "C09": {
+        "props": "theories/Props/C09.v", "gens": [("tables", "Codec/Gen_Tables.v")], "cluster": "expand", "gen": "expand", "ops": ["expand_spec"],
+        "n": {"quick": 120, "thorough": 1500}, "oracle_n": {"quick": 150, "thorough": 3000},
+        "rule": 'correspondence: ExpandSpec on generated multi-document reference graphs (1-5 documents in the same/sub/parent directories and an http host; local, sibling, ./ ../, root-relative and absolute refs; nested-pointer and whole-document targets; escaped names; refs at every sub-schema keyword; parameters/responses/path items by $ref; cycles of every small topology; fault injection; all option combinations) + a bounded-exhaustive sample of graphs over <=3 definitions x <=2 documents; oracle: SkipSchemas: no parameter/response/path-item position holds a $ref, definitions equal, every schema $ref designates from the root the same canonical target as before, skip-then-full equals direct full (unfoldings)',
+        "trusted_base": COMMON_TB + ["Expand/Expand.v: hand model of expander.go / schema_loader.go / resolver.go on JSON trees (base-path threading, parent stack, memo of circular refs, resolver roots, deref chains, rebasing, SkipSchemas/ContinueOnError/AbsoluteCircularRef, cache and loader log); abstractions: sub-schemas visited in JSON member order, `#/` refs into the live root read the original root (outputs on cyclic graphs compared through unfoldings)",
+                                     "correspondence scope: graphs without multi-hop parameter/response/path-item chains, imported-circular schemas, schema ids and prefix-sibling documents (the areas of the open findings F7-F10) are compared; the others are judged by the oracle only",
+                                     "Codec/Codec.v (typed decoding of every resolved target) and Base/Url.v (normalizeURI, rebase)"],
+        "level_text": 'Coq theorems (Props/C09.v): with SkipSchemas a schema holding a $ref is finished at once — nothing resolved, followed or loaded, state untouched, only the text rebased to the root-relative rendering of its canonical target; the definitions section comes out exactly as it went in; no fuel is needed for schema refs.',
+        "level_note": 'Partial: that the rebased text designates the same target (URL algebra of rebase; fails for prefix-sibling documents, F9) and the skip-then-full equality are checked by the oracle.',
+        "technique": "Coq proof about a hand-written executable model of the expander + differential run (exact on acyclic graphs, unfoldings on cyclic ones) + property oracle on the implementation",
+        "assumptions": ["loader is a function of the URL during one call", "documents are in normal form (reference objects carry only $ref)"],
+    },
+    "C10": {
+        "extra_oracles": ["C10shared"],
+        "props": "theories/Props/C10.v", "gens": [("tables", "Codec/Gen_Tables.v")], "cluster": "expand", "gen": "expand", "ops": ["expand_spec"],
+        "n": {"quick": 120, "thorough": 1500}, "oracle_n": {"quick": 100, "thorough": 2000},
+        "rule": "correspondence: ExpandSpec on generated multi-document reference graphs (1-5 documents in the same/sub/parent directories and an http host; local, sibling, ./ ../, root-relative and absolute refs; nested-pointer and whole-document targets; escaped names; refs at every sub-schema keyword; parameters/responses/path items by $ref; cycles of every small topology; fault injection; all option combinations) + a bounded-exhaustive sample of graphs over <=3 definitions x <=2 documents; oracle: every definition/parameter/response of every root through each entry point (typed root, generic root, nil root + base location): the result's unfolding equals the element's unfolding in the root; root and caller options serialised before and after are unchanged",
+        "trusted_base": COMMON_TB + ["Expand/Expand.v: hand model of expander.go / schema_loader.go / resolver.go on JSON trees (base-path threading, parent stack, memo of circular refs, resolver roots, deref chains, rebasing, SkipSchemas/ContinueOnError/AbsoluteCircularRef, cache and loader log); abstractions: sub-schemas visited in JSON member order, `#/` refs into the live root read the original root (outputs on cyclic graphs compared through unfoldings)",
+                                     "correspondence scope: graphs without multi-hop parameter/response/path-item chains, imported-circular schemas, schema ids and prefix-sibling documents (the areas of the open findings F7-F10) are compared; the others are judged by the oracle only",
+                                     "Codec/Codec.v (typed decoding of every resolved target) and Base/Url.v (normalizeURI, rebase)"],
+        "level_text": 'Coq theorems (Props/C10.v): the entry points are set-up code around the same core: they terminate under the same pigeonhole bound, read `#/` references in the supplied root (cached under the pseudo location), and keep the cache discipline. Non-modification of root and options cannot be exhibited by a functional model and is checked on the implementation.',
+        "level_note": 'Partial (aliasing): root/options mutation is a runtime property (oracle: before/after serialisation).',
+        "technique": "Coq proof about a hand-written executable model of the expander + differential run (exact on acyclic graphs, unfoldings on cyclic ones) + property oracle on the implementation",
+        "assumptions": ["loader is a function of the URL during one call", "documents are in normal form (reference objects carry only $ref)"],
+    },
+    "C18": {
+        "extra_oracles": ["C18null"],
+        "props": "theories/Props/C18.v", "gens": [("tables", "Codec/Gen_Tables.v")], "cluster": "expand", "gen": "expand", "ops": ["expand_spec"],
+        "n": {"quick": 120, "thorough": 1500}, "oracle_n": {"quick": 150, "thorough": 3000},
+        "rule": 'correspondence: ExpandSpec on generated multi-document reference graphs (1-5 documents in the same/sub/parent directories and an http host; local, sibling, ./ ../, root-relative and absolute refs; nested-pointer and whole-document targets; escaped names; refs at every sub-schema keyword; parameters/responses/path items by $ref; cycles of every small topology; fault injection; all option combinations) + a bounded-exhaustive sample of graphs over <=3 definitions x <=2 documents; oracle: nil / fresh / pre-loaded (every subset) / reused caches give identical outputs; loader log without duplicates; pre-loaded documents never requested',
+        "trusted_base": COMMON_TB + ["Expand/Expand.v: hand model of expander.go / schema_loader.go / resolver.go on JSON trees (base-path threading, parent stack, memo of circular refs, resolver roots, deref chains, rebasing, SkipSchemas/ContinueOnError/AbsoluteCircularRef, cache and loader log); abstractions: sub-schemas visited in JSON member order, `#/` refs into the live root read the original root (outputs on cyclic graphs compared through unfoldings)",
+                                     "correspondence scope: graphs without multi-hop parameter/response/path-item chains, imported-circular schemas, schema ids and prefix-sibling documents (the areas of the open findings F7-F10) are compared; the others are judged by the oracle only",
+                                     "Codec/Codec.v (typed decoding of every resolved target) and Base/Url.v (normalizeURI, rebase)"],
+        "level_text": 'Coq theorem (Props/C18.v), unbounded: at every point of an expansion (also at an error), for every supplied cache: each document the loader served was requested exactly once, none of them was in the supplied cache, all are now cached, nothing was evicted — an invariant carried through the whole traversal by induction on fuel and tree size.',
+        "level_note": 'Partial: transparency of results w.r.t. the cache contents (same output with any consistent cache) is checked by the oracle; refused requests may be repeated (not cached, as in the code).',
+        "technique": "Coq proof about a hand-written executable model of the expander + differential run (exact on acyclic graphs, unfoldings on cyclic ones) + property oracle on the implementation",
+        "assumptions": ["loader is a function of the URL during one call", "documents are in normal form (reference objects carry only $ref)"],
+    },
+    "C16": {
+        "extra_oracles": ["C16meta"],
+        "props": "theories/Props/C16.v", "gens": [("globals", "Cache/Gen_Globals.v")],
+        "n": {"quick": 30, "thorough": 300}, "oracle_n": {"quick": 30, "thorough": 300},
+        "rule": "oracle: histories of 2-30 calls (expansions and resolutions over 3 roots that share locations, document contents changed between calls, interleaved with expansions of the two meta-schemas): every outcome equals the same call made first; caller options unchanged; meta-schemas still resolve and equal the embedded files; non-trivial = history of >= 2 calls; distinct = distinct histories",
+        "trusted_base": ["translator/globals.go: package-level variables and their writers, cache hand-over of the exported entry points", "harness (Go) oracle", "sync.Once runs its function once"],
+        "level_text": "Coq theorems (Props/C16.v): over the inventory regenerated from /repo, the only writers of package-level state are the one-time cache initialiser, the clone in cacheOrDefault, the asset readers and the logger set-up, and every entry point hands a caller cache through cacheOrDefault; under that discipline (state machine of cacheOrDefault) the package-level cache is the built-in one after ANY history and a call without a caller cache computes what it computes as the first call of a process — for all histories.",
+        "level_note": "Partial (sharing below the clone): the two meta-schema values are shared by every clone; a write through them is a runtime aliasing bug the model cannot exhibit — covered by the oracle's histories.",
+        "technique": "Coq obligations over an inventory regenerated from source + state-machine proof over all histories + history oracle on the implementation",
+        "assumptions": ["sync.Once"],
+    },
+    "C17": {
+        "extra_oracles": ["C17meta"],
+        "props": "theories/Props/C17.v", "gens": [("globals", "Cache/Gen_Globals.v")],
+        "n": {"quick": 60, "thorough": 600}, "oracle_n": {"quick": 60, "thorough": 600},
+        "race": True,
+        "rule": "oracle (binary built with -race): N in {2,8,32} goroutines x mixes of ExpandSpec on distinct roots, ExpandSchema, Resolve*, json.Marshal and pointer lookups on one shared read-only document, and one shared ResolutionCache: every result equals its sequential reference, no race report, no deadlock (watchdog); non-trivial = >= 2 goroutines; distinct = distinct (mix, graph)",
+        "trusted_base": ["translator/globals.go: lock/unlock/access events of simpleCache's methods, package-level writers", "Go's race detector and scheduler", "sync.RWMutex gives atomic critical sections"],
+        "level_text": "Coq theorems (Props/C17.v): (1) lock discipline of simpleCache over the source: every store access of Get/Set inside a matching critical section, writes under the exclusive lock; (2) for any number of goroutines, any adaptive programs and ANY schedule of atomic Get/Load/Set steps on one shared cache consistent with the loader, every goroutine obtains exactly its solo documents and the cache stays consistent; (3) no package-level state is written by entry points.",
+        "level_note": "PARTIAL by nature: data races and deadlocks are properties of Go's memory model and runtime that no Gallina model can exhibit; the theorem assumes atomic Get/Set, which the lock-discipline obligation and the -race stress run support. If this is held to be a switch of technique, C17 is the property to move to not_applicable.",
+        "technique": "Coq proof over all interleavings of atomic cache operations + lock-discipline obligation from source + -race stress oracle",
+        "assumptions": ["Get/Set are atomic (RWMutex)", "the loader is deterministic"],
     },
 }
